@@ -419,7 +419,8 @@ SHAPES = {"bare": "L", "optional": ("opt", "L"), "array": ("arr", "L"), "deque":
 # number-typed documents of several magnitudes (epoch-like ones included: DateTime reads an int between 1e9 and
 # 2e9 as a timestamp, and so does its constructor; a float is neither a str nor an int)
 CORRUPTIONS += [0, 1, 2, 0.0, 1.0, 2.0, 1600000000, 1600000000.5, 1.6e9, 999999999, 2000000001, 1000000000000,
-                -0.5, False, "1.5", "0", "A", "OFF", "x", "01/31/20 07:15:45", "2020-01-31"]
+                -0.5, False, "1.5", "0", "A", "OFF", "x", "01/31/20 07:15:45", "2020-01-31", "nan", "sNaN", "Infinity"]
+NAN_STRINGS = ("nan", "sNaN")
 
 
 class NoLift(Exception):
@@ -572,6 +573,7 @@ def run_exact(case):
             return {"skip": "field unset"}
         doc[name] = _replace_leaf(doc[name], CORRUPTIONS[ci], which)
         res["site"] = f"{case['fields'][fi]['wrap']}>{case['fields'][fi]['leaf']}"
+        res["nan"] = CORRUPTIONS[ci] in NAN_STRINGS and case["fields"][fi]["leaf"] == "decimal-bounded"
     res["doc"] = repr(doc)[:300]
     # an array for a Set field holding values that are == but of different JSON type (0.0 / false): as a Python set
     # they collapse before the constructor can see them, so 'the set this array denotes' is ambiguous
@@ -594,18 +596,21 @@ def run_exact(case):
             res["ctor_exc"] = type(e).__name__
             continue
     res["ctor"] = "accepted" if expected is not None else "rejected"
+    y = None
     try:
         y = Deserializer(cls).deserialize(json.loads(json.dumps(doc)))
         res["out"] = "accepted"
-        if expected is not None:
-            res["equal_ctor"] = bool(y == expected)
-        if res.get("is_image") and exactleaf:
-            res["equal_orig"] = bool(y == x)
     except Exception as e:
         res["out"] = "rejected"
         res["exc"] = type(e).__name__
         res["documented_exc"] = isinstance(e, (TypeError, ValueError))
         res["msg"] = str(e)[:200]
+    nan_doc = case.get("corrupt") is not None and CORRUPTIONS[case["corrupt"][1]] in NAN_STRINGS
+    if y is not None and not nan_doc:       # (a NaN is not equal to itself; comparing a signalling NaN raises)
+        if expected is not None:
+            res["equal_ctor"] = bool(y == expected)
+        if res.get("is_image") and exactleaf:
+            res["equal_orig"] = bool(y == x)
     return res
 
 
@@ -615,7 +620,9 @@ def judge_exact(case, impl):
     fails = []
     site = impl["site"]
     if impl["out"] == "rejected" and not impl["documented_exc"]:
-        fails.append((f"extras:wrong-exception:{impl['exc']}:{site}",
+        # (one stable key, whatever the wrapper, for a NaN compared with the bound of a DecimalNumber)
+        where = "nan-vs-bound:decimal-bounded" if impl.get("nan") and impl["exc"] == "InvalidOperation" else site
+        fails.append((f"extras:wrong-exception:{impl['exc']}:{where}",
                       f"Deserializer rejected {impl['doc']} with {impl['exc']} ({impl['msg']}) instead of TypeError/ValueError"))
     # AnyOf[DecimalNumber(bounds), Integer]: both options read a JSON number, and the first one deserializes every
     # number (its bounds are the constructor's business): indistinguishable options are outside the statement
